@@ -72,6 +72,10 @@ func (w *World) VerifyUnit(fn *ssa.Function, con *Contract) *UnitResult {
 		for _, n := range con.Inlines {
 			x.inlineNames[n] = true
 		}
+		x.abstracted = map[string]bool{}
+		for _, n := range con.Abstracts {
+			x.abstracted[n] = true
+		}
 		x.harnessUnroll = con.UnrollTo
 		x.unrollOverride = con.UnrollTo
 		con = nil
@@ -100,7 +104,7 @@ func (w *World) VerifyUnit(fn *ssa.Function, con *Contract) *UnitResult {
 	for _, p := range fn.Params {
 		v := x.fresh(p.Type(), "in_"+p.Name())
 		top0 := x.top0
-		for _, f := range x.validity(v, func(r *Term) *Term { return tb.Cmp("bvule", r, top0) }) {
+		for _, f := range x.validity(v, func(r *Term) *Term { tb.MarkLow(r); return tb.Cmp("bvule", r, top0) }) {
 			x.fact(f)
 		}
 		args = append(args, v)
